@@ -28,10 +28,13 @@ def f_new(e):
 def select(evs, first, endseq):
     """events of one thread (program order) that become observations"""
     out = []
+    prev = None
     for e in evs:
         if e.seq < first or e.seq >= endseq:
+            prev = e
             continue
         f = e.obj % 8
+        prev, e0 = e, prev
         if f == 0:
             out.append(e)
         elif f == 1:
@@ -42,6 +45,9 @@ def select(evs, first, endseq):
                 out.append(e)
         elif f == 3:
             if e.kind == 2:
+                # a store that is the second half of set_bit / clear_bit: keep the value the thread loaded just before
+                if e0 is not None and e0.obj % 8 == 3 and e0.kind == 1:
+                    e.a, e.off = e0.a, 1
                 out.append(e)
         elif f == 4:
             if e.kind == 1 or not (e.ok & 1):
@@ -97,19 +103,42 @@ def order(threads):
             edge(news[v], n)
         if v in writes:
             edge(n, writes[v])
-    heap = [(nodes[n][2].seq, n) for n in range(len(nodes)) if indeg[n] == 0]
-    heapq.heapify(heap)
-    out = []
-    while heap:
-        _, n = heapq.heappop(heap)
-        out.append(nodes[n][0])
-        for m in succ[n]:
-            indeg[m] -= 1
-            if indeg[m] == 0:
-                heapq.heappush(heap, (nodes[m][2].seq, m))
-    if len(out) != len(nodes):
-        return None
-    return out
+    # ds_pending_data: a latch (exchange of a non-zero value with 0) follows the read of source.c:794 that saw it non-zero,
+    # which follows the owner's read of the flags at :792: the writes that made the word non-zero precede that flags read
+    extra = []
+    pw = sorted((e.seq, n) for n, (ti, k, e) in enumerate(nodes) if e.obj % 8 == 2)
+    for n, (ti, k, e) in enumerate(nodes):
+        if e.obj % 8 == 2 and e.kind == 3 and e.b == 0 and e.a != 0:
+            j = k - 1
+            while j >= 0 and not (threads[ti][j].obj % 8 == 0 and threads[ti][j].kind == 1):
+                j -= 1
+            if j < 0:
+                continue
+            zero = max([sq for sq, m in pw if sq < e.seq and nodes[m][2].kind in (2, 3) and nodes[m][2].b == 0] or [-1])
+            for sq, m in pw:
+                w = nodes[m][2]
+                if zero < sq < e.seq and nodes[m][0] != ti and not (w.kind in (2, 3) and w.b == 0):
+                    extra.append((m, idx[(ti, j)]))
+
+    def topo(more):
+        deg = list(indeg)
+        sc = [list(x) for x in succ]
+        for a, b in more:
+            sc[a].append(b)
+            deg[b] += 1
+        heap = [(nodes[n][2].seq, n) for n in range(len(nodes)) if deg[n] == 0]
+        heapq.heapify(heap)
+        out = []
+        while heap:
+            _, n = heapq.heappop(heap)
+            out.append(nodes[n][0])
+            for m in sc[n]:
+                deg[m] -= 1
+                if deg[m] == 0:
+                    heapq.heappush(heap, (nodes[m][2].seq, m))
+        return out if len(out) == len(nodes) else None
+
+    return topo(extra) or topo([])
 
 
 def build(rd, thr_ev, mgr):
@@ -159,9 +188,9 @@ def coq_replay(name, jobs, chunk_events=9000, timeout=900, workers=4):
             rows = []
             for (thr, lockv, sel) in j["threads"]:
                 evs = "; ".join("mkEv %d %d %d %d %d %s %s %d" % (e.kind, e.order, e.obj % 8, e.off, e.size, z(e.a), z(e.b), e.ok & 1) for e in sel)
-                rows.append("mkT %s %s (mabs %s [%s]) 0 0 0 false 0" % (z(lockv), "true" if lockv == j["mgr"] else "false", z(lockv), evs))
+                rows.append("mkT %s %s (mabs %s [%s]) 0 0 0 false 0 (-1) 0 0" % (z(lockv), "true" if lockv == j["mgr"] else "false", z(lockv), evs))
             defs.append("Definition ts%d : list tst := [%s]." % (k, ";\n ".join(rows)))
-            defs.append("Definition ord%d : list nat := [%s]." % (k, "; ".join("%d" % t for t in j["order"])))
+            defs.append("Definition ord%d : list nat := ([%s])%%nat." % (k, "; ".join("%d" % t for t in j["order"])))
             kt, kd, kr = j["kind"]
             calls.append("replay (mkK %s %s %s) true %s %s ts%d ord%d" % (("true" if kt else "false"), ("true" if kd else "false"),
                          ("true" if kr else "false"), "true" if j["ca"] else "false", "true" if j["rg"] else "false", k, k))
